@@ -12,7 +12,7 @@
   (`inv_step_aswritten_partial`, `inv_reachable_aswritten_partial`).  Sequential semantics under `pool.mu` only: data
   races are not expressible in this model (they are exercised by the harness with the race detector).
 -/
-import Aqv.Lemmas.TxPoolReplace
+import Aqv.Lemmas.TxPoolReorg
 namespace Aqv.Props.C15
 open Aqv.TxPool
 
@@ -94,6 +94,9 @@ theorem costcap_upper_bound (l : TxL) (h : CapsOK l) (t : Tx) (bump c g : Nat) :
     intro u hu
     have := h u (hr.kept_sub u hu).1
     rw [hr.caps_eq.1, hr.caps_eq.2]; exact this⟩
+
+example : CapsOK (⟨true, [⟨0,0,2,10,5⟩], 25, 10⟩ : TxL) := by
+  intro t ht; simp at ht; subst ht; decide
 
 /-! ## the invariant -/
 
@@ -259,6 +262,52 @@ def r4 (fixed : Bool) : Pool :=
     when removeTx emptied the pending list, so its re-injection is refused as "known"). After the fix it is pooled. -/
 theorem prefix_removeTx_witness :
     (r4 false).validateTx rT1 false .wellformed = .ok ∧ ¬ (r4 false).pooled rT1 ∧ (r4 true).pooled rT1 := by decide
+
+/-! ## reorg re-injection -/
+
+/-  Full statement (`reorg_reinjects`): after `reset` across a reorganisation within the 64-block horizon every transaction of
+    `discarded \ included` that still validates against the new head is in pending ∪ queue, unless a limit eviction or a
+    same-slot competitor displaced it.
+    Proved below for LOCAL senders (they are exempt from every limit, so no side condition on the limits is needed), for both
+    demotion variants and every oracle.  Missing for non-local senders: the side condition "no limit binds during the reset"
+    needs the counting lemma Σ|pending a| + Σ|queue a| ≤ |all| to be discharged from a bound on the pool size; the clause is
+    judged on the real code for every generated history instead (harness `CheckReorg`), and the bookkeeping it rests on is
+    `all_ok_step`. -/
+theorem reorg_reinjects_partial (g : Bool) (s : Pool) (v : View) (oldNum newNum : Nat) (disc inc : List Tx) (orc : ResetOracle)
+    (h : Good s) (ha : AllOK s)
+    (hdepth : (if oldNum ≤ newNum then newNum - oldNum else oldNum - newNum) ≤ 64)
+    (t : Tx) (ht : t ∈ txDifference disc inc) (hl : t.sender ∈ s.locals)
+    (hval : ({ s with cnonce := v.nonce, balance := v.balance, maxGas := v.maxGas, pnonce := v.nonce } : Pool).validateTx t false .wellformed = .ok)
+    (hfresh : Fresh s (txDifference disc inc)) (hdistinct : (txDifference disc inc).Pairwise SlotNe) :
+    (s.step g (.reset v oldNum newNum true disc inc orc)).pooled t :=
+  reset_reinjects_local g s v oldNum newNum disc inc orc h ha hdepth t ht hl hval hfresh hdistinct
+
+/-- a pool whose local sender 0 holds nonce 2 while the chain (nonce 2) had included its nonces 0 and 1 -/
+def q0 : Pool := (Pool.init wCfg wView2).step true (.add ⟨0,2,5,21000,100⟩ true .wellformed [] [] [])
+
+example : Good q0 ∧ AllOK q0 ∧ (0 : Addr) ∈ q0.locals ∧
+    Fresh q0 (txDifference [⟨0,0,5,21000,100⟩, ⟨0,1,5,21000,100⟩] []) ∧
+    (txDifference [⟨0,0,5,21000,100⟩, ⟨0,1,5,21000,100⟩] []).Pairwise SlotNe := by
+  have hg : Good q0 := (inv_step _ _ (good_init wCfg wView2).1).1
+  have ha : AllOK q0 := all_ok_step true _ _ (good_init wCfg wView2).1 (good_init wCfg wView2).2
+  refine ⟨hg, ha, by decide, ?_, ?_⟩
+  · intro x hx p hp hs
+    have hpa : p ∈ q0.all := (ha p).mpr hp
+    have hall : q0.all = [⟨0,2,5,21000,100⟩] := by decide
+    rw [hall] at hpa
+    simp only [List.mem_singleton] at hpa
+    subst hpa
+    have : x = ⟨0,0,5,21000,100⟩ ∨ x = ⟨0,1,5,21000,100⟩ := by
+      have : txDifference [(⟨0,0,5,21000,100⟩ : Tx), ⟨0,1,5,21000,100⟩] [] = [⟨0,0,5,21000,100⟩, ⟨0,1,5,21000,100⟩] := by decide
+      rw [this] at hx; simpa using hx
+    rcases this with rfl | rfl <;> decide
+  · have : txDifference [(⟨0,0,5,21000,100⟩ : Tx), ⟨0,1,5,21000,100⟩] [] = [⟨0,0,5,21000,100⟩, ⟨0,1,5,21000,100⟩] := by decide
+    rw [this]
+    refine List.Pairwise.cons ?_ (List.Pairwise.cons (by simp) List.Pairwise.nil)
+    intro y hy
+    simp only [List.mem_singleton] at hy
+    subst hy
+    intro _; decide
 
 /-! ## limits -/
 
